@@ -766,3 +766,77 @@ Section ClientProofs.
   Lemma dial_error_stream msg : stream_out write_resp (dial_error_run msg) = write_resp false msg.
   Proof. cbn. rewrite app_nil_r. auto. Qed.
 End ClientProofs.
+
+(* ------------------------------------------------------------------ the sender finishes first *)
+Definition eof_tail (p : pc) : Prop :=
+  match p with
+  | PLog _ EEOF | PWrite _ EEOF | PRet (GEnv EN) | PDone (GEnv EN) | PPanic => True
+  | _ => False
+  end.
+
+Lemma eof_tail_step m d p a q :
+  eof_tail p -> wok_act a -> quiet_act a -> lstep m d p a = Some q -> eof_tail q.
+Proof.
+  intros Hp Hw Hq Hs.
+  destruct p as [| |c er|c0 er|e|e|]; cbn in Hp; try contradiction;
+    destruct a as [bl c' er'|tx rx v|cw nw ew|e']; cbn in Hs; try discriminate.
+  - destruct er; try contradiction.
+    destruct (log_args d (blen c)) as [etx erx]. destruct ((tx =? etx) && (rx =? erx)); [|discriminate].
+    destruct v; [|cbn in Hq; contradiction]. inv Hs. cbn. auto.
+  - rename cw into c. destruct er; try contradiction.
+    destruct (beqb c c0) eqn:Ec; [|discriminate]. apply beqb_eq in Ec. subst c0.
+    cbn in Hq. subst ew. cbn in Hw. destruct Hw as [[Hw0 Hw1] Hw2].
+    assert (Hnw : nw = Z.of_N (blen c)).
+    { destruct (Z_lt_le_dec nw (Z.of_N (blen c))) as [Hlt|]; [exfalso; apply (Hw2 Hlt); auto|lia]. }
+    destruct m.
+    + inv Hs. cbn. auto.
+    + replace ((nw <? 0)%Z || (Z.of_N (blen c) <? nw)%Z) with false in Hs by lia.
+      replace (Z.of_N (blen c) =? nw)%Z with true in Hs by lia. inv Hs. cbn. auto.
+  - destruct e as [[| |]| | |]; try contradiction.
+    destruct (gerr_eqb e' (GEnv EN)); [|discriminate]. inv Hs. cbn. auto.
+Qed.
+
+Lemma eof_tail_exec m d l p q :
+  eof_tail p -> wok l -> Forall quiet_act l -> lexec m d p l = Some q -> eof_tail q.
+Proof.
+  revert p. induction l as [|a l IH]; intros p Hp Hw Hq He; cbn in He.
+  - inv He. auto.
+  - destruct (lstep m d p a) as [p1|] eqn:Es; [|discriminate].
+    inversion Hw as [|? ? Hwa Hwl]; subst. inversion Hq as [|? ? Hqa Hql]; subst.
+    apply (IH p1); auto. eapply eof_tail_step; eauto.
+Qed.
+
+(* once a loop has read EOF from its source, and no veto and no failing write follows, it can only
+   deliver the last chunk and return nil *)
+Lemma loop_sender_finishes m d l p bl c :
+  lexec m d PRead l = Some p -> wok l -> In (LRead bl c EEOF) l -> Forall quiet_act l -> eof_tail p.
+Proof.
+  intros He Hw Hin Hq. apply in_split in Hin as (l1 & l2 & ->).
+  rewrite lexec_app in He. destruct (lexec m d PRead l1) as [q|] eqn:E1; [|discriminate].
+  cbn in He. destruct (lstep m d q (LRead bl c EEOF)) as [q1|] eqn:Es; [|discriminate].
+  apply Forall_app in Hw as [_ Hw]. apply Forall_app in Hq as [_ Hq].
+  inversion Hw as [|? ? Hwa Hwl]; subst. inversion Hq as [|? ? Hqa Hql]; subst.
+  eapply eof_tail_exec; [| | |exact He]; auto.
+  destruct q; cbn in Es; try discriminate.
+  destruct (bl =? CopyBufSize); [|discriminate]. destruct (bl <? blen c).
+  - inv Es. cbn. auto.
+  - destruct c; [|destruct m]; inv Es; cbn; auto.
+Qed.
+
+Lemma run_sender_finishes m tr s d bl c : exec (init m) tr = Some s -> wok_tr tr ->
+  In (ALoop d (LRead bl c EEOF)) tr -> Forall quiet_act (proj d tr) ->
+  match pcof s d with
+  | PRet e | PDone e => e = GNil /\ srcb d tr = snkb d tr
+  | PLog _ _ | PWrite _ _ | PPanic => True
+  | _ => False
+  end.
+Proof.
+  intros He Hw Hin Hq. apply proj_in in Hin.
+  destruct (run_loop _ _ _ d He) as [[Hn _]|Hl]; [rewrite Hn in Hin; contradiction|].
+  pose proof (loop_sender_finishes _ _ _ _ _ _ Hl (Hw d) Hin Hq) as Ht.
+  destruct (pcof s d) as [| |c1 er|c1 er|e|e|] eqn:Ep; cbn in Ht; try contradiction; auto.
+  - destruct e as [[| |]| | |]; try contradiction. split; auto.
+    destruct (loop_complete _ _ _ _ Hl (Hw d) (or_introl eq_refl)) as (H1 & _). auto.
+  - destruct e as [[| |]| | |]; try contradiction. split; auto.
+    destruct (loop_complete _ _ _ _ Hl (Hw d) (or_intror eq_refl)) as (H1 & _). auto.
+Qed.
